@@ -17,6 +17,8 @@ import (
 	"github.com/mdzio/go-mqtt/service"
 )
 
+var kaSetupMu sync.Mutex
+
 type kaCore struct {
 	mu  sync.Mutex
 	res map[int]chan string
@@ -73,13 +75,27 @@ func kaConnect(svr *service.Server, id int, c wConnect) (*rawClient, bool) {
 func kaScenario(id, K int, interval time.Duration, count int, kind string) string {
 	n := atomic.AddInt64(&providerSeq, 1)
 	name := fmt.Sprintf("verifka%d", n)
+	// the library's provider registries are plain package-level maps (finding G4): registration writes them, a
+	// server reads them once, at its first connection (checkConfiguration); scenarios start concurrently, so
+	// both happen under one harness lock (a 29-scenario run crashed with "concurrent map read and map write")
+	kaSetupMu.Lock()
+	setupLocked := true
+	unlockSetup := func() {
+		if setupLocked {
+			setupLocked = false
+			kaSetupMu.Unlock()
+		}
+	}
+	defer unlockSetup()
 	registerProviders(name)
 	svr := &service.Server{ConnectTimeout: 1, SessionsProvider: name, TopicsProvider: name, Authenticator: "verifAuth"}
-	if kind == "deafsub" || kind == "deafecho" {
+	deaf := kind == "deafsub" || kind == "deafecho" || kind == "deafflood"
+	if deaf {
 		svr.BufferSize = 16384 // small rings: the deaf subscriber's outgoing ring is full well before its deadline
 	}
 	willTopic := []byte(fmt.Sprintf("will/%d", id))
 	wit, ok := kaConnect(svr, 1, wConnect{protoName: []byte("MQTT"), version: 4, clean: true, clientID: []byte("witness"), keepAlive: 300})
+	unlockSetup()
 	if !ok {
 		return "witness-refused"
 	}
@@ -98,17 +114,27 @@ func kaScenario(id, K int, interval time.Duration, count int, kind string) strin
 	d := time.Duration(eff)*time.Second + time.Duration(eff)*time.Second/5
 	last := time.Now()
 	active := "ok"
-	if kind == "deafecho" {
+	if kind == "deafecho" || kind == "deafflood" {
 		// the subject subscribes to a topic it publishes to itself, stops reading and sends until its own
-		// outgoing ring is full (its processor is then parked behind its own client), then falls silent
+		// outgoing ring is full (its processor is then parked behind its own client), then falls silent.
+		//   deafecho:  just enough packets for that (16 KiB ring, 4 packets fit, the echo of the 5th parks the
+		//              processor); the incoming ring keeps room for a read block, so the receiver is inside a
+		//              socket read with the keep-alive deadline armed when the client falls silent (finding F7)
+		//   deafflood: the client keeps sending until its writes block: the incoming ring fills up as well and
+		//              the receiver waits for ring space - no socket read is pending, no deadline is armed (F8)
 		topic := []byte(fmt.Sprintf("echo/%d", id))
+		// paused before the SUBSCRIBE: the reader goroutine's pending Read takes the SUBACK and nothing after it
+		cl.setPaused(true)
 		cl.write(wSubscribe(1, [][]byte{topic}, []int{0}))
 		cl.waitUntil(func() bool { return len(cl.items) > 0 }, brokerWait)
-		cl.setPaused(true)
-		pl := make([]byte, 4000)
-		for i := 0; i < 8; i++ {
+		pkt := wPub{qos: 0, topic: topic, payload: make([]byte, 4000)}.encode()
+		n := 16384/len(pkt) + 1
+		if kind == "deafflood" {
+			n += 3
+		}
+		for i := 0; i < n; i++ {
 			cl.conn.SetWriteDeadline(time.Now().Add(300 * time.Millisecond))
-			if _, err := cl.conn.Write(wPub{qos: 0, topic: topic, payload: pl}.encode()); err != nil {
+			if _, err := cl.conn.Write(pkt); err != nil {
 				break
 			}
 			last = time.Now()
@@ -169,17 +195,20 @@ func kaScenario(id, K int, interval time.Duration, count int, kind string) strin
 		}
 		last = time.Now()
 	}
-	if kind == "deafsub" || kind == "deafecho" {
+	closed := false
+	if deaf {
 		// a paused reader cannot see EOF: the end is observed through the teardown notification
 		select {
 		case <-cl.stopped:
 			cl.mu.Lock()
 			cl.eof = true
 			cl.mu.Unlock()
+			closed = true
 		case <-time.After(d + 3*time.Second):
 		}
+	} else {
+		closed = cl.waitUntil(func() bool { return cl.eof }, d+3*time.Second)
 	}
-	closed := cl.waitUntil(func() bool { return cl.eof }, d+3*time.Second)
 	elapsed := time.Since(last)
 	window := "ok"
 	if !closed {
@@ -190,6 +219,10 @@ func kaScenario(id, K int, interval time.Duration, count int, kind string) strin
 		window = fmt.Sprintf("late(%dms)", elapsed.Milliseconds())
 	}
 	will := 0
+	willWait := 3 * time.Second
+	if !closed {
+		willWait = time.Second // no teardown, no will: do not wait long for it
+	}
 	if wit.waitUntil(func() bool {
 		for _, it := range wit.items {
 			if len(it) > 4 && it[:4] == "PUB " {
@@ -197,7 +230,7 @@ func kaScenario(id, K int, interval time.Duration, count int, kind string) strin
 			}
 		}
 		return false
-	}, 3*time.Second) {
+	}, willWait) {
 		will = 1
 	}
 	wit.conn.Close()
@@ -218,8 +251,12 @@ func genKA(seed int64, n int, tier string, w *bufio.Writer) {
 	r := rand.New(rand.NewSource(seed))
 	fmt.Fprintln(w, "ka reset")
 	type scn struct{ k, iv, cnt int; kind string }
+	// deafsub / deafecho: the subject has stopped READING (own outgoing ring full; deafecho: its own processor
+	// parked in it - finding F7, fixed by b77088f); deafflood (thorough): both rings full, the receiver waits for
+	// ring space and no read deadline is armed - open finding F8
 	fixed := []scn{{1, 0, 0, "ping"}, {1, 400, 4, "ping"}, {1, 500, 3, "pub"}, {1, 2100, 2, "ping"}, {2, 900, 3, "pub"}, {1, 900, 3, "ping"},
-		{1, 300, 0, "silentsub"}, {2, 1900, 4, "irr"}, {1, 950, 4, "irr"}}
+		{1, 300, 0, "silentsub"}, {2, 1900, 4, "irr"}, {1, 950, 4, "irr"}, {1, 100, 0, "deafsub"}, {1, 100, 0, "deafecho"},
+		{2, 100, 0, "deafecho"}, {1, 100, 0, "deafflood"}, {2, 150, 0, "deafsub"}}
 	for i := 0; i < n; i++ {
 		var s scn
 		if i < len(fixed) {
@@ -227,11 +264,13 @@ func genKA(seed int64, n int, tier string, w *bufio.Writer) {
 		} else {
 			k := 1 + r.Intn(2)
 			s = scn{k, 100 + r.Intn(k*2600), 1 + r.Intn(3), pick(r, []string{"ping", "pub"})}
-			switch r.Intn(5) {
+			switch r.Intn(6) {
 			case 0:
 				s = scn{k, 100 + r.Intn(600), 0, "silentsub"}
 			case 1:
 				s = scn{k, k*1000 - 50 - r.Intn(k*300), 2 + r.Intn(3), "irr"}
+			case 2:
+				s = scn{k, 100 + r.Intn(200), 0, pick(r, []string{"deafsub", "deafecho"})}
 			}
 		}
 		fmt.Fprintf(w, "ka start %d %d %d %d %s\n", i+1, s.k, s.iv, s.cnt, s.kind)
